@@ -790,8 +790,15 @@ def run(out_dir: str) -> list[TranslationError]:
     try:
         import translate_signatures
 
+        pins = []
         for e in translate_signatures.run(out_dir):
+            if "source changed (hash" in str(e):
+                # a hand-modelled function was edited: not a translation failure; the correspondence decides whether the
+                # hand model still describes the code.  Recorded so that C15 searches deeper (vlib: pins_changed).
+                pins.append(str(e))
+                continue
             errors.append(e if isinstance(e, TranslationError) else TranslationError("signatures", str(e)))
+        write_if_changed(os.path.join(out_dir, "PINS_CHANGED.txt"), "\n".join(pins) + ("\n" if pins else ""))
     except ImportError:
         pass
     except Exception as e:  # fail closed
